@@ -13,6 +13,7 @@ inferred as ONETOMANY) is read from the real mappers on every run.
 from __future__ import annotations
 
 import json
+import os
 from typing import Any, Dict, List, Tuple
 
 from . import core, c04
@@ -436,9 +437,9 @@ def install_model(md, workdir) -> None:
     alt = md.get("alt")
     c04.ALT = {alt: alt + "Mapping"} if alt else {}
     c04.ALTBASE = {n for n in names if alt and n != alt and alt in mro(n)}
-    # two or more levels below the alternatively mapped class: from_dao consults only the immediate base DAO, the column the mapping
-    # renamed (position 0 of the scalars, base class first) comes back as the constructor default 0   (finding C04-d)
-    c04.ALTGC = {n: [(0, 0)] for n in c04.ALTBASE if base[n] != alt}
+    # (finding C04-d, fixed by 96f6440: from_dao used to consult only the immediate base DAO, so for a class two or more levels below the
+    # alternatively mapped class the renamed column came back as the constructor default; the model's lost-column table stays empty now)
+    c04.ALTGC = {}
     c04.SUB = subs_of
     umid = md.get("umid", {})
 
@@ -650,9 +651,8 @@ def decide(rep: Report, m: Dict[str, Any], v, model_ok: bool, inst: Dict[str, in
         altc = ft["altcycle"] and not (frag & 1)
         # exact instance: the implementation fails exactly as the faithful model predicts
         # (C05-a is fixed by 22a99b9: a lost self-referential link is a VIOLATION again, not an instance)
-        altgc = bool(ft.get("altgc_objs")) and not (frag & 1)
-        if code == 2 and not ft["selfref_shared"] and (ft["repeated_elems"] or altc or altgc):
-            for k, on in (("C05-b", ft["repeated_elems"]), ("C04-a", altc), ("C04-d", altgc)):
+        if code == 2 and not ft["selfref_shared"] and (ft["repeated_elems"] or altc):
+            for k, on in (("C05-b", ft["repeated_elems"]), ("C04-a", altc)):
                 inst[k] += 1 if on else 0
             return
         if altc and "Mapping" in (res["py_iso"] or "") and not ft["selfref_shared"]:
@@ -811,7 +811,7 @@ def run(tier: str, seed: int, replay=None) -> int:
         return rep.finish()
     codes = dict(zip(idx, vals))
 
-    inst = {"C05-b": 0, "C04-a": 0, "C04-c": 0, "C04-d": 0,
+    inst = {"C05-b": 0, "C04-a": 0, "C04-c": 0,
             "_c04c_open": any(f.fid == "C04-c" and f.kind == "open" for f in findings)}
     tallies = {"in_F": 0, "stale": 0}
     bad: List[Tuple[dict, str]] = []
